@@ -24,16 +24,16 @@ type Scenario struct {
 	Cancels   []int      `json:"cancels,omitempty"`   // cancel actions (subscriber index)
 	Shutdowns []ShutSpec `json:"shutdowns,omitempty"` // Shutdown calls made by the scenario
 	// replayer faults (wrapper level): index of the Put/Replay call that misbehaves, -1 none
-	PutErrAt      int   `json:"puterrat"`
-	PutPanicAt    int   `json:"putpanicat"`
-	ReplayPanicAt int   `json:"replaypanicat"`
+	PutErrAt      int    `json:"puterrat"`
+	PutPanicAt    int    `json:"putpanicat"`
+	ReplayPanicAt int    `json:"replaypanicat"`
 	PanicKind     string `json:"panickind,omitempty"` // what the replayer panics with: "" a string | error | runtime (a real runtime error)
-	Prefill       int   `json:"prefill,omitempty"`   // publishes made sequentially before anything else starts
-	TTLms         int   `json:"ttlms,omitempty"`     // valid replayer: time-to-live in (virtual) ms; 0 = practically infinite
-	Sleeps        []int `json:"sleeps,omitempty"`    // sleep actions (virtual ms) the scheduler may take, so that buffered events expire
-	EmptyIDAt     int   `json:"emptyidat,omitempty"` // manual IDs: the message with this creation index carries the (valid) empty ID; 0 = none, else index+1
-	WarmSubs      int   `json:"warmsubs,omitempty"`  // the first WarmSubs subscribers are started and run to quiescence (registered) before the schedule begins
-	Picks         []int `json:"picks"`
+	Prefill       int    `json:"prefill,omitempty"`   // publishes made sequentially before anything else starts
+	TTLms         int    `json:"ttlms,omitempty"`     // valid replayer: time-to-live in (virtual) ms; 0 = practically infinite
+	Sleeps        []int  `json:"sleeps,omitempty"`    // sleep actions (virtual ms) the scheduler may take, so that buffered events expire
+	EmptyIDAt     int    `json:"emptyidat,omitempty"` // manual IDs: the message with this creation index carries the (valid) empty ID; 0 = none, else index+1
+	WarmSubs      int    `json:"warmsubs,omitempty"`  // the first WarmSubs subscribers are started and run to quiescence (registered) before the schedule begins
+	Picks         []int  `json:"picks"`
 	// deviation mode (bounded enumeration): the scheduler takes option 0 at every step except
 	// at the listed steps
 	DevMode bool  `json:"devmode,omitempty"`
